@@ -470,6 +470,9 @@ func c03Serve(fr *c07Front, be *c07Backend, in *c03In) (obs c03Obs) {
 	if cut && in.CutAt >= 0 && in.CutAt <= len(sent) {
 		sent = sent[:in.CutAt]
 	}
+	if cut && in.ReqEnc == "cl" && len(sent) >= len(in.ReqBody) && len(sent) > 0 {
+		sent = sent[:len(sent)-1] // never a complete body followed by a half-close
+	}
 	switch in.ReqEnc {
 	case "cl":
 		fmt.Fprintf(&req, "Content-Length: %d\r\n\r\n", len(in.ReqBody))
@@ -829,6 +832,9 @@ func c03Gen(r *vfRand, adv bool) (in c03In) {
 	// an upload the client cuts off
 	if in.ReqEnc != "none" && len(in.ReqBody) > 0 && !in.RA.On && (r.Chance(1, 10) || (adv && r.Chance(1, 3))) {
 		in.Cut, in.CutAt = true, r.PickInt(0, 1, len(in.ReqBody)/2, len(in.ReqBody)-1)
+		if in.CutAt >= len(in.ReqBody) { // an announced length must really be missed
+			in.CutAt = len(in.ReqBody) - 1
+		}
 		if in.ReqEnc == "chunked" && r.Chance(1, 3) {
 			in.CutAt = len(in.ReqBody) // all the data, but never the last-chunk
 		}
